@@ -114,6 +114,11 @@ Theorem C02_closed_subpath_is_closed_chain :
   chain_closed segs.
 Proof. exact closed_subpath_chain. Qed.
 
+(** every element list whose sub-paths all end in [ClosePath] is a closed path in the above sense *)
+Theorem C02_close_terminated_is_closed : forall els : list (PathEl R),
+  close_terminated els -> closed_path els.
+Proof. exact close_terminated_closed. Qed.
+
 Example C02_area_affine_open_counterexample :
   exists (A : Affine R) (s : PathSeg R),
     seg_signed_area (seg_map A s) <> aff_determinant A * seg_signed_area s.
@@ -191,6 +196,11 @@ Theorem C02_quadrilateral_area : forall a b c d : Point R,
   path_area [MoveTo a; LineTo b; LineTo c; LineTo d; ClosePath]
   = Some (/ 2 * v_cross (pt_sub c a) (pt_sub d b)).
 Proof. exact quadrilateral_area. Qed.
+
+(** every polygon: the shoelace formula 1/2 Σ p_i x p_(i+1) *)
+Theorem C02_polygon_area : forall (a : Point R) (mid : list (Point R)),
+  path_area (MoveTo a :: map (@LineTo R) mid ++ [ClosePath]) = Some (shoelace a mid).
+Proof. exact polygon_area. Qed.
 
 Example C02_unit_square_positive :
   path_area [MoveTo (mkPoint 0 0); LineTo (mkPoint 1 0); LineTo (mkPoint 1 1); LineTo (mkPoint 0 1); ClosePath]
